@@ -2323,12 +2323,14 @@ def make_item(kind_name, rnd, tag='', masked=()):
     return finish_item(KINDS[kind_name][0](Ctx(rnd, tag, masked)), masked)
 
 
-def random_schema(rnd, name, n_items, masked=()):
-    """n_items items of random kinds outside `masked` (a set of kind names with an open finding)"""
+def random_schema(rnd, name, n_items, masked=(), must=()):
+    """items of the kinds in `must`, filled up to n_items with random kinds outside `masked` (kinds with an open finding)"""
     pool = [(k, w) for k, (f, w) in sorted(KINDS.items()) if k not in masked]
     ctx = Ctx(rnd, masked=masked)
     items = []
-    lib_used = False
+    lib_used = any(k.startswith(('use:', 'reference:')) for k in must)
+    for k in must:
+        items.append(finish_item(KINDS[k][0](ctx), masked))
     tries = 0
     while len(items) < n_items and tries < 10 * n_items:
         tries += 1
@@ -2338,7 +2340,27 @@ def random_schema(rnd, name, n_items, masked=()):
                 continue
             lib_used = True
         items.append(finish_item(KINDS[k][0](ctx), masked))
+    rnd.shuffle(items)
     return Schema(name, items, Style(random.Random(rnd.random())))
+
+
+def deal_kinds(rnd, n_schemas, masked=(), per_schema=6):
+    """every unmasked kind at least once per run: shuffled decks dealt round-robin; -> [kinds] per schema"""
+    kinds = sorted(k for k in KINDS if k not in masked)
+    iface = [k for k in kinds if k.startswith(('use:', 'reference:'))]
+    rest = [k for k in kinds if k not in iface]
+    musts = [[] for _ in range(n_schemas)]
+    pos = 0
+    while min(len(m) for m in musts) < per_schema:
+        deck = rest[:]
+        rnd.shuffle(deck)
+        for k in deck:
+            musts[pos % n_schemas].append(k)
+            pos += 1
+    for i in range(0, n_schemas, 3):
+        if iface:
+            musts[i].append(iface[(i // 3) % len(iface)])
+    return musts
 
 
 def probe_schema(kind_name, variant=0):
